@@ -1,5 +1,6 @@
 """C17 — concurrent forwarding copies an object once and all tracers agree (tie to the code)."""
 from checks import conc_common as CC
+from checks import c17_reader
 from checks.conc_common import Cell, Case, split_out, fmt_ref, new_addr, obj_addr, MASK, ONE_STEP, PTR_LOC
 
 
@@ -26,7 +27,8 @@ class Spec(CC.ConcSpec):
                 "Mmtk.FwdByte.proj_exec", "Mmtk.FwdByte.neighbours_independent", "Mmtk.FwdByte.cas_leaves_neighbour",
                 "Mmtk.FwdByte.copy_at_most_once_per_object", "Mmtk.FwdByte.agreement_per_object",
                 "Mmtk.FwdByte.one_winner_at_a_time_per_object", "Mmtk.FwdByte.outcome_sound_per_object",
-                "Mmtk.FwdByte.spurious_failure_then_retry", "Mmtk.FwdByte.noRetry_copies_twice"]
+                "Mmtk.FwdByte.spurious_failure_then_retry", "Mmtk.FwdByte.noRetry_copies_twice"] + c17_reader.THEOREMS
+    extra_part = staticmethod(c17_reader.part)
     component = "fwd"
     race_component = "fwd"
     relation = ("Mmtk.Fwd.localStep (thread run to the end of each function) ≙ util::object_forwarding::{attempt_to_forward, "
@@ -362,7 +364,11 @@ META = {
             "races (2-16 threads, armed yield points) judged by the Lean predicate and an independent Python oracle; and "
             "multi-object races (2/4/8 objects whose forwarding bits share a side-metadata byte, every tracer traces all of them "
             "in rotation) with every object judged on its own — justified by FwdByte.neighbours_independent: a byte-wide CAS "
-            "model of two objects in one byte projects onto the per-object model (spurious failure + retry = stutter).",
+            "model of two objects in one byte projects onto the per-object model (spurious failure + retry = stutter). Readers that "
+            "are not tracers (SFT::get_forwarded_object of CopySpace / ImmixSpace: weak-reference processing, bindings): "
+            "`reader_sound` — at any point of any interleaving an answer `some c` is the one copy, already written; tie: hx_gc op "
+            "`fwdwin` queries the real space's SFT entry at every point of a winner's critical section on real objects "
+            "(Immix, GenImmix, StickyImmix, SemiSpace, GenCopy; before and after collections).",
     "note": "Proof over the SC interleaving model; partial w.r.t. the code: schedules are sampled, weak memory is out of scope, the "
             "trace_object compositions are transcribed in the harness (callees are the real functions).",
     "technique": "Lean 4 inductive invariant over an unbounded-thread transition system + exact differential + real-thread races "
